@@ -1,4 +1,5 @@
 import N0Verif.Proofs.Esc
+import N0Verif.Proofs.EscRef
 import N0Verif.Proofs.Ini
 /-!
 # C17 — delimited list / key=value text decodes to what was encoded
@@ -727,6 +728,29 @@ theorem C17_split_maxsplit_real_cuts_cex :
   have := h ['\\', ';', ';'] [';'] 1 '\\' true (by decide)
   revert this
   decide
+
+/-- **Outside the class of C17-j the code IS the character-level reference** — for every text,
+non-empty delimiter (odd ones included), maxsplit, escape character and trim flag such that no
+escaped delimiter is met while real cuts are limited and still allowed (`escWithin`, decided by the
+same scan as the reference).  Unbounded; with `C17_split_maxsplit_real_cuts_cex` this locates the
+defect exactly in the class. -/
+theorem C17_split_real_cuts_partial (s d : Str) (m : Nat) (e : Char) (tr : Bool) (hd : d ≠ [])
+    (h : escWithin e d (limOf m) 0 [] s = false) :
+    splitWithEscape s d m (some e) tr = splitRef s d m (some e) tr := by
+  rw [C17_general_spec s d m e tr hd, splitRef, if_neg hd, refAux_eq_specG e d tr s (limOf m) 0 [] h]
+  rfl
+
+/-- without maxsplit (`None` / `0`) the class is empty: the code is the reference -/
+theorem C17_split_real_cuts_no_maxsplit (s d : Str) (e : Char) (tr : Bool) (hd : d ≠ []) :
+    splitWithEscape s d 0 (some e) tr = splitRef s d 0 (some e) tr :=
+  C17_split_real_cuts_partial s d 0 e tr hd (escWithin_none e d s 0 [])
+
+-- non-vacuity: a limited split outside the class (the escaped delimiter comes after the budget is used up /
+-- no escape at all), and the witness of the finding inside it
+example : escWithin '\\' [';'] (limOf 1) 0 [] ['a', ';', 'b', '\\', ';', 'c', ';', 'd'] = false := by decide
+example : escWithin '\\' [';'] (limOf 2) 0 [] ['a', ';', 'b', ';', 'c'] = false := by decide
+example : escWithin '\\' [';'] (limOf 1) 0 [] ['\\', ';', ';'] = true := by decide
+example : escWithin '\\' [';'] (limOf 2) 0 [] ['a', '\\', ';', 'b', ';', 'c', ';', 'd'] = true := by decide
 
 -- outside the class of C17-j the code and the reference agree (no maxsplit; no escaped delimiter
 -- among the first maxsplit delimiters; delimiter of two characters; escape-free text)
